@@ -83,7 +83,7 @@ double gcirc(double ra1, double dec1,
 {
 
     double sindec1, cosdec1, sindec2, cosdec2, 
-           radiff, cosradiff, dis, cosdis; 
+           radiff, sinradiff, cosradiff, dis, t1, t2, sindis, cosdis; 
 
     if (ra1 == ra2 && dec1 == dec2) {
         return 0.0;
@@ -95,15 +95,18 @@ double gcirc(double ra1, double dec1,
     sindec2 = sin(dec2*D2R);
     cosdec2 = cos(dec2*D2R);
 
-    radiff = (ra1-ra2)*D2R;
+    radiff = (ra2-ra1)*D2R;
+    sinradiff = sin(radiff);
     cosradiff = cos(radiff);
 
+    // use both the sine and the cosine of the distance; the arc cosine
+    // alone cannot resolve angles below about 1.e-6 degrees
+    t1 = cosdec2*sinradiff;
+    t2 = cosdec1*sindec2 - sindec1*cosdec2*cosradiff;
+    sindis = sqrt(t1*t1 + t2*t2);
     cosdis = sindec1*sindec2 + cosdec1*cosdec2*cosradiff;
 
-    if (cosdis < -1.0) cosdis=-1.0;
-    if (cosdis >  1.0) cosdis= 1.0;
-
-    dis = acos(cosdis);
+    dis = atan2(sindis, cosdis);
     if (degrees) {
         dis *= R2D;
     }
@@ -111,6 +114,18 @@ double gcirc(double ra1, double dec1,
 
 }
 
+
+// cosine of the search radius for finding candidate triangles, lowered by a
+// few rounding errors so the search circle is never smaller than requested;
+// candidates are always checked against the exact distance
+static double search_cosine(double rad_degrees)
+{
+    double d = cos( rad_degrees*D2R ) - 1.0e-15;
+    if (d < -1.0) {
+        d = -1.0;
+    }
+    return d;
+}
 
 HTMC::HTMC(int depth) throw (const char *) {
     init(depth);
@@ -471,7 +486,7 @@ PyObject* Matcher::match(PyObject* ra_array, // all in degrees
     double rad=0, d=0;
     if (nrad == 1) {
         rad = *(double *) PyArray_GETPTR1((PyArrayObject *) radius_array, 0);
-        d = cos( rad*D2R );
+        d = search_cosine(rad);
     }
 
     npy_intp ninput = PyArray_SIZE((PyArrayObject *) ra_array);
@@ -483,7 +498,7 @@ PyObject* Matcher::match(PyObject* ra_array, // all in degrees
 
         if (nrad > 1) {
             rad = *(double *) PyArray_GETPTR1((PyArrayObject *) radius_array, i_input);
-            d = cos( rad*D2R );
+            d = search_cosine(rad);
         }
 
         // Find the triangles around this point
